@@ -491,6 +491,9 @@ func (it *Interp) initCall(fr *frame, fn Val, args []Val, instr *ssa.Call) (res 
 	return it.call(fn, args, instr)
 }
 
+// fallThrough is returned by a model that does not apply to these arguments: the real body is executed instead.
+var fallThrough Val = &Native{Kind: "fallthrough"}
+
 type nativeMethod struct {
 	n    *Native
 	name string
@@ -550,8 +553,10 @@ func (it *Interp) callFunction(fn *ssa.Function, args []Val, bindings []Val) Val
 		}
 	}
 	if m, ok := models[key]; ok {
-		it.ex.noteModel(key)
-		return m(it, args)
+		if r := m(it, args); r != fallThrough {
+			it.ex.noteModel(key)
+			return r
+		}
 	}
 	if len(fn.Blocks) == 0 || !(it.executable(fn)) {
 		if r, ok := it.autoModel(fn, args); ok {
